@@ -23,6 +23,12 @@ mod rules;
 #[cfg(feature = "metrics")]
 mod metrics;
 
+// verification hook (off by default): the deterministic-simulation harness lives outside the
+// repository and is compiled into the binary only with `--cfg redproxy_verif`.
+#[cfg(redproxy_verif)]
+#[path = "/verif/sim/harness/mod.rs"]
+mod verif;
+
 use crate::{connectors::Connector, context::ContextRefOps, copy::copy_bidi, listeners::Listener};
 
 pub const VERSION: &str = env!("CARGO_PKG_VERSION");
@@ -65,6 +71,10 @@ impl GlobalState {
 }
 #[tokio::main]
 async fn main() -> Result<(), Terminator> {
+    #[cfg(redproxy_verif)]
+    if let Some(code) = verif::boot().await {
+        std::process::exit(code);
+    }
     let args = clap::Command::new(env!("CARGO_BIN_NAME"))
         .version(VERSION)
         .arg(
